@@ -31,7 +31,7 @@ ASSUMPTIONS = [
 
 
 def examples(tier):
-    return 320 if tier == "quick" else 6000
+    return 960 if tier == "quick" else 10000
 
 
 SIG = ["a", "b"]
